@@ -200,3 +200,11 @@ class ExtraOps(dict):
 
 
 FACTORIES['extra_ops'] = lambda d: ExtraOps.build()
+
+
+def _maxpool_case(d):
+    from contracts.dls_c import MaxPool
+    return MaxPool._case(d['k'], d['s'], d['d'], d['l'], d['ceil'], d.get('h', 1), d.get('c', 2))[0]
+
+
+FACTORIES['maxpool_case'] = _maxpool_case
